@@ -2,6 +2,8 @@
 (* impl -> spec: a log recorded from real threads using the real Counter.  Every thread  *)
 (* logs, with a sequence number drawn from one atomic counter, each schedule point it     *)
 (* passes ("counter.drop.0/1/2" per guard, "counter.wait.0/1/2/3/done" for the waiter).   *)
+(* RedbStore runs add "db" lines (a blocking task is using the database, logged by the      *)
+(* storage backend the harness gave to redb) and "caller_cancelled" lines.                 *)
 (* A log line is an assertion about where that thread stands at that instant; the steps  *)
 (* themselves (and the park / wake of the waiter) are hidden and may happen anywhere      *)
 (* between the lines.  The log is accepted iff SOME interleaving of the model's steps     *)
@@ -18,6 +20,7 @@ WaiterAt(p) == CASE p = "counter.wait.0" -> "W0" [] p = "counter.wait.1" -> "W1"
 
 Reset == /\ gpc' = [g \in Guards |-> IF g <= Ev.n THEN "held" ELSE "none"]
          /\ count' = Ev.n /\ wpc' = "W0" /\ epoch' = 0 /\ armed' = NotArmed
+         /\ running' = 1..Ev.n /\ cancelled' = {}
 
 Observe == /\ l <= Len(Rec) /\ l' = l + 1
            /\ \/ Ev.name = "reset" /\ Reset /\ started' = {} /\ wstarted' = FALSE
@@ -25,6 +28,12 @@ Observe == /\ l <= Len(Rec) /\ l' = l + 1
                                     /\ started' = started \cup {Ev.g} /\ UNCHANGED wstarted
               \/ Ev.name = "waiter" /\ wpc = WaiterAt(Ev.at) /\ UNCHANGED vars
                                     /\ wstarted' = TRUE /\ UNCHANGED started
+              \* a blocking task touched the database: some task is running and the waiter is not through
+              \/ Ev.name = "db" /\ running # {} /\ wpc # "Done" /\ UNCHANGED <<vars, started, wstarted>>
+              \* the harness dropped / aborted / timed out the caller of an operation.  In the design CallerCancel(g)
+              \* changes nothing the waiter or the tasks can see (only the set `cancelled`): the line itself
+              \* constrains nothing, the "db" and "waiter" lines after it do
+              \/ Ev.name = "caller_cancelled" /\ UNCHANGED <<vars, started, wstarted>>
            /\ TLCSet(1, IF l' > TLCGet(1) THEN l' ELSE TLCGet(1))
 \* a thread cannot move before it has logged its first point (the point precedes its first step)
 Hidden  == /\ l <= Len(Rec) /\ UNCHANGED <<l, started, wstarted>>
@@ -32,6 +41,7 @@ Hidden  == /\ l <= Len(Rec) /\ UNCHANGED <<l, started, wstarted>>
               \/ \E g \in started : G1(g) \/ G2(g)
 
 TInit == /\ gpc = [g \in Guards |-> "none"] /\ count = 0 /\ wpc = "Done" /\ epoch = 0 /\ armed = NotArmed
+         /\ running = {} /\ cancelled = {}
          /\ l = 1 /\ started = {} /\ wstarted = FALSE /\ TLCSet(1, 1)
 TNext == Observe \/ Hidden
 TSpec == TInit /\ [][TNext]_tvars
